@@ -50,6 +50,41 @@ def M2(p):
     return p[0] ** 2 - p[1] ** 2 - p[2] ** 2 - p[3] ** 2
 
 
+def check_mass_table(repo, chk):
+    """HelicityAngle.get_all_mass: a replaced mass holds for that call only (round-3 seed)"""
+    from ..sym import PyFunc, SelfObj
+    HA = "tf_pwa/data_trans/helicity_angle.py"
+    chk.rule("H-mass", "HelicityAngle.get_all_mass, interpreted three times on one object (replace R2, then R1, then nothing) for the chain A -> R1 E, R1 -> R2 D, R2 -> B C: every call gives the replacement for the named particle and the nominal mass of every other one (no mass survives from an earlier call)")
+    ha = repo.cls(HA + "::HelicityAngle")
+    fn = ha.methods.get("get_all_mass")
+    if fn is None:
+        raise AnalysisError("anchor vanished: HelicityAngle.get_all_mass")
+    names = ["A", "R1", "R2", "B", "C", "D", "E"]
+    nominal = {n: sp.Symbol("m_" + n, positive=True) for n in names}
+    parts = {n: SelfObj(None, {"__str__": n, "get_mass": PyFunc(lambda n_=n: nominal[n_])}) for n in names}
+    dec = lambda c, o: SelfObj(None, {"core": parts[c], "outs": [parts[x] for x in o]})
+    chain = [dec("A", ["R1", "E"]), dec("R1", ["R2", "D"]), dec("R2", ["B", "C"])]
+    so = SelfObj(ha, {"decay_chain": chain})
+    tr = Translator(repo, hooks={"allow_attr_store": True}, max_depth=2)
+    try:
+        tr.call_fn(ha.methods["__init__"], [chain], {}, self_obj=so)
+        runs = []
+        for rep in ({"R2": sp.Symbol("x2")}, {"R1": sp.Symbol("x1")}, {}):
+            r_ = tr.call_fn(fn, [dict(rep)], {}, self_obj=so)
+            runs.append((rep, dict(r_) if isinstance(r_, dict) else r_))  # a copy: the verdict is about this call
+    except Unmodelled as e:
+        raise AnalysisError("HelicityAngle.get_all_mass cannot be interpreted: %s" % e)
+    bad = None
+    for k, (rep, got) in enumerate(runs):
+        want = {n: rep.get(n, nominal[n]) for n in names}
+        g = {n: got.get(parts[n]) for n in names} if isinstance(got, dict) else None
+        if g != want and bad is None:
+            bad = "call %d with replace_mass=%s gives %s, expected %s" % (k + 1, {a: str(b) for a, b in rep.items()}, {a: str(b) for a, b in (g or {}).items() if b != want.get(a)}, {a: str(b) for a, b in want.items() if (g or {}).get(a) != b})
+    chk.oblige("H-mass", "three successive get_all_mass calls on one HelicityAngle: replacement for the named particle, nominal masses otherwise", bad is None)
+    if bad:
+        chk.violation("H-mass", fn.key, "stale", bad + " - momenta generated for a scan of one resonance keep the scanned mass of another", file=HA, line=fn.lineno)
+
+
 def run(repo, chk, tier, parts=("dalitz", "boost", "helicity", "frame")):
     chk.rule("E6-dalitz", "momenta built from Dalitz variables reproduce them: energy-momentum conservation, mass shells, (p1+p2)^2=m12, (p2+p3)^2=m23")
     chk.rule("E6-boost", "boost round trip, invariance of M2 / Dot, boost matrix == vector boost, rest_vector == boost by -p/E")
@@ -173,6 +208,8 @@ def run(repo, chk, tier, parts=("dalitz", "boost", "helicity", "frame")):
         check_helicity_step(repo, chk, oblige)
     if "frame" in parts:
         check_frame_typing(repo, chk)
+    if len(parts) == 4:
+        check_mass_table(repo, chk)
     chk.extra["kernels_inlined"] = sorted(tr.inlined)
     chk.extra["domain_assumptions_used"] = sorted(set(tr.assumed))[:10]
     chk.info("not decided as a whole: helicity-angle round trip over decay topologies (cal_helicity_angle / HelicityAngle.build_data): data-dependent frame bookkeeping")
